@@ -207,7 +207,8 @@ def timing_features(b):
     for bb, si, s in b.stmts():
         if s['k'] == 'assign' and s['rv']['k'] == 'bin':
             d = describe_rv(b, s['rv'])
-            if '.time' in d and ('dt' in d or 'as_secs_f64' in d):
+            rb = describe(b, s['rv']['b'])
+            if (s['rv']['op'].startswith('Add') and rb == 'dt') or (s['rv']['op'] in ('Ge', 'Gt', 'Le', 'Lt', 'Eq', 'Ne') and 'as_secs_f64' in rb):
                 # normalise the place prefix of the tween state
                 import re
                 d = re.sub(r'\(\(\*[^)]*\)[^ ,)]*\)\.time|\(\*_?\w+\)\.time|\(\*\w+\)', 'TIME', d) if False else d
